@@ -397,6 +397,72 @@ def compactWith (fl : CompactFlags) (F : Oracle) (cfg : CompactCfg) (sz : Nat) (
         | (w4, false) => (w4, .error)
         | (w4, true) => (deleteAll F w4 acc.actually, .compacted ids id deltas.length tombs)
 
+
+/-! ### compaction in two phases (for the flush / compaction interleaving of C13)
+
+`compactLoad` is everything up to and including the reads of the selected segments (it holds the
+manifest snapshot taken at the start); `compactFinish` is everything after (tombstone GC, the
+`put` of the new segment, the manifest swap written FROM THE SNAPSHOT, the deletes).
+`compactWith = compactFinish ∘ compactLoad` (`compactWith_eq_phases`). -/
+
+def compactLoad (fl : CompactFlags) (F : Oracle) (cfg : CompactCfg) (w : World) :
+    Sum (World × CompactOut) (World × Manifest × LoadAcc) :=
+  match loadOrCreate F w 0 with
+  | (w1, none) => .inl (w1, .error)
+  | (w1, some m) =>
+    let sel := selectSegments cfg m
+    if sel.length < cfg.minSegs then .inl (w1, .nothing) else
+    let (w2, acc) := loadLoop fl F w1 LoadAcc.init sel
+    .inr (w2, m, acc)
+
+def compactFinish (F : Oracle) (cfg : CompactCfg) (sz : Nat) (w2 : World) (m : Manifest) (acc : LoadAcc) :
+    World × CompactOut :=
+    if acc.failed then (w2, .error) else
+    let ids := acc.actually.map (·.id)
+    if acc.missing > 0 && acc.ktd.isEmpty && acc.before == 0 then
+      let m' : Manifest := { m with segments := removeIds m ids, version := m.version + 1 }
+      match saveManifest F w2 m' with
+      | (w3, false) => (w3, .error)
+      | (w3, true) => (w3, .cleaned ids)
+    else if acc.actually.length < cfg.minSegs then (w2, .nothing) else
+    let kept := keptOf cfg acc.ktd
+    let tombs := acc.ktd.length - kept.length
+    if kept.isEmpty then
+      let m' : Manifest := { m with segments := removeIds m ids, version := m.version + 1 }
+      match saveManifest F w2 m' with
+      | (w3, false) => (w3, .error)
+      | (w3, true) => (deleteAll F w3 acc.actually, .emptied ids tombs)
+    else
+      let deltas := sortBy (fun d : Delta => d.2.ts.time) kept
+      let id := m.next
+      match w2.put F (segName id) (.segment deltas) with
+      | (w3, .err _) => (w3, .error)
+      | (w3, .ok _) =>
+        let info : SegInfo :=
+          { id := id, count := deltas.length, size := sz, minTs := minTime deltas, maxTs := maxTime deltas }
+        let m' : Manifest :=
+          { ({ m with segments := removeIds m ids } : Manifest).addSegment info with next := id + 1 }
+        match saveManifest F w3 m' with
+        | (w4, false) => (w4, .error)
+        | (w4, true) => (deleteAll F w4 acc.actually, .compacted ids id deltas.length tombs)
+
+/-- a compaction with (optionally) one whole `flush` of another task — the persistence actor —
+    running between the compactor's reads and its writes -/
+def compactInterleaved (restore : Bool) (cfl : CompactFlags) (F : Oracle) (cfg : CompactCfg) (sz : Nat)
+    (w : World) (mid : Option (Pers × Nat)) : World × CompactOut × FlushOut :=
+  match compactLoad cfl F cfg w with
+  | .inl (w1, out) =>
+    match mid with
+    | none => (w1, out, .empty)
+    | some (p, szf) => let r := flushWith restore F szf w1 p; (r.1, out, r.2.2)
+  | .inr (w2, m, acc) =>
+    match mid with
+    | none => let r := compactFinish F cfg sz w2 m acc; (r.1, r.2, .empty)
+    | some (p, szf) =>
+      let rf := flushWith restore F szf w2 p
+      let r := compactFinish F cfg sz rf.1 m acc
+      (r.1, r.2, rf.2.2)
+
 /-- the current tree -/
 def compact (F : Oracle) (cfg : CompactCfg) (sz : Nat) (w : World) : World × CompactOut :=
   compactWith pinnedFlags F cfg sz w
